@@ -5,6 +5,7 @@ mod props;
 mod refmodel;
 mod run;
 mod universe;
+mod util;
 
 use refmodel::*;
 use run::{Run, Tier};
@@ -134,6 +135,15 @@ fn main() {
 fn dispatch(id: &str, tier: Tier) -> i32 {
     match id {
         "C01" => props::c01::run(tier),
+        "C02" => props::c02::run(tier),
+        "C03" => props::c03::run(tier),
+        "C04" => props::c04::run(tier),
+        "C05" => props::c05::run(tier),
+        "C06" => props::c06::run(tier),
+        "C08" => props::c08::run(tier),
+        "C09" => props::c09::run(tier),
+        "C17" => props::c17::run(tier),
+        "C18" => props::c18::run(tier),
         _ => {
             eprintln!("unknown property {id}");
             2
@@ -143,6 +153,15 @@ fn dispatch(id: &str, tier: Tier) -> i32 {
 fn dispatch_replay(id: &str, case: &Value) -> i32 {
     match id {
         "C01" => props::c01::replay(case),
+        "C02" => props::c02::replay(case),
+        "C03" => props::c03::replay(case),
+        "C04" => props::c04::replay(case),
+        "C05" => props::c05::replay(case),
+        "C06" => props::c06::replay(case),
+        "C08" => props::c08::replay(case),
+        "C09" => props::c09::replay(case),
+        "C17" => props::c17::replay(case),
+        "C18" => props::c18::replay(case),
         _ => {
             eprintln!("unknown property {id}");
             2
